@@ -246,6 +246,14 @@ def tableMismatches (idx : List (Nat × List Nat)) (s : State) (ob : Obs) : List
 
 def firstOnly (l : List Verdict) : List Verdict := l.take 1
 
+/-- every monitor that fails on one observation is reported once (the monitors are evaluated on the implementation's
+own observation and do not depend on each other; the properties select theirs by name, so a failing monitor of one
+property must not hide a failing monitor of another) -/
+def distinctMonitors (l : List Verdict) : List Verdict :=
+  l.foldl (fun acc v => match v with
+    | .monitor n _ => if acc.any (fun w => match w with | .monitor m _ => m == n | _ => false) then acc else acc ++ [v]
+    | _ => acc) []
+
 /-- expected survivors of the three expiry queries, computed from the implementation's tables
 before the operation and the contracts' status / window (C08 `reclaim_exact`) -/
 def survivors1 (s : State) (h : Nat) (before : List (Nat × List Nat)) : List (Nat × List Nat) :=
@@ -324,7 +332,7 @@ def conclude (d : DState) (l : Line) (pre : List Verdict) (extra : Obs → List 
     let vs := if vs.isEmpty then firstOnly (tableMismatches d.idx d.m ob) else vs
     let d := { d with iOcc := ob.occ, iR1 := ob.r1, iR2 := ob.r2, iTmp := ob.tmp, iLost := ob.met.getD 4 0,
                       dead := !vs.isEmpty, ops := d.ops + 1 }
-    (d, firstOnly (vs.filter fun v => match v with | .monitor .. => true | _ => false) ++
+    (d, distinctMonitors (vs.filter fun v => match v with | .monitor .. => true | _ => false) ++
         (if vs.any (fun v => match v with | .monitor .. => true | _ => false) then [] else firstOnly vs))
 
 /-- `lost_counted`: lostSectors moves only on forced removal / RemoveSector and then by exactly the
